@@ -13,7 +13,13 @@ from opv.core import Result
 ID = "C35"
 LEVEL = "exploration"
 TECHNIQUE = "runtime monitoring: differential against a literal reference fold + conservation count, per batch"
-RULE = ("seeded sequences of 1-24 error-log entries over 3 messages x 2 severities, times on a grid with zero, "
+RULE = ("seeded sequences of 1-24 error-log entries over 3 messages x 2 severities (half of the cases: the three short "
+        "messages 'pump fault' / 'valve stuck' / 'pump fault '; the other half: a base message of 0-65537 characters - "
+        "lengths 2^k-1, 2^k, 2^k+1 for k <= 16, 10^k-1, 10^k, 10^k+1 for k <= 4 and uniform 0-6000 - built from an ASCII, "
+        "a non-ASCII (accents, CJK, combining mark, astral plane) or a multi-line (\\n, \\r\\n, tab, quotes) text, plus two "
+        "relatives of it: one character replaced near the end or next to a length boundary, one character more or "
+        "less, one character replaced near the start (long common suffix), another text of the same length, or a "
+        "short message; messages are always compared in full), times on a grid with zero, "
         "positive and (in a third of the cases) negative steps, cut into batches of 0-5 entries, with redeliveries "
         "(the engine resends what it got no reply for): a whole batch again, the last k entries of a batch again in "
         "front of the next batch (partial overlap, possibly followed by a new later entry), two consecutive batches "
@@ -38,10 +44,117 @@ ASSUMPTIONS = [
 REQUIRED = {"batches_compared": 2000, "merges_checked": 1000, "identical_time_duplicates": 200,
             "cross_batch_merges": 200, "conservation_checks": 2000, "via_handler_batches": 100,
             "redelivered_earlier_time_duplicates": 2000, "redelivered_batches_with_earlier_times_judged": 500,
-            "partial_overlap_redeliveries_judged": 200, "via_handler_redelivered_earlier_time_duplicates": 50}
+            "partial_overlap_redeliveries_judged": 200, "via_handler_redelivered_earlier_time_duplicates": 50,
+            # wide message alphabet (lengths 0 .. 65537, relatives differing late / early / by one character)
+            "wide_message_cases": 3000, "wide_message_batches_compared": 15000,
+            "long_message_merges_256plus": 6000, "long_message_merges_1024plus": 4000,
+            "long_message_merges_4096plus": 2000, "long_message_merges_65536plus": 200,
+            "long_message_redelivered_duplicates": 4000, "long_message_redelivered_duplicates_1024plus": 3000,
+            "late_difference_kept_distinct_256plus": 700, "late_difference_kept_distinct_1024plus": 500,
+            "late_difference_kept_distinct_4096plus": 200, "proper_prefix_kept_distinct": 1000,
+            "early_difference_long_common_suffix_kept_distinct": 150, "empty_message_merges": 40,
+            "non_ascii_message_merges": 2000, "multiline_message_merges": 2000, "via_handler_long_message_merges": 500}
 
 MSGS = ("pump fault", "valve stuck", "pump fault ")   # third differs by a trailing blank only
 SEVS = (30, 40)
+
+# ---------------------------------------------------------------------------------------------------------------------
+# wide message alphabet: a case carries a list of message specs ("msgs"), its batches refer to them by index.
+# spec = plain string | {"unit": <key of UNITS>, "len": L, "edits": [[position, replacement character], ...]}:
+# the unit text repeated/cut to exactly L characters, then single characters replaced.
+UNITS = {
+    "ascii": "Hardware write failed for register R%03d=0x1f3c; ",
+    "unicode": "Tryk for h\u00f8jt p\u00e5 s\u00f8jle \u6e29\u5ea6\u8b66\u544a e\u0301 \U0001f6a8 \u00b5S/cm ",
+    "multiline": "Traceback (most recent call last):\n  File \"uod.py\", line 7\r\n\tValueError: bad \"value\"\n\n",
+}
+LEN_BOUNDARIES = sorted({0} | {b + d for b in [2 ** k for k in range(0, 17)] + [10 ** k for k in range(1, 5)]
+                               for d in (-1, 0, 1)})
+EDIT_CHARS = {"ascii": "#", "unicode": "\u00e6", "multiline": "\n"}
+
+
+def build_msg(spec) -> str:
+    if isinstance(spec, str):
+        return spec
+    unit = UNITS[spec["unit"]]
+    ln = spec["len"]
+    s = (unit * (ln // len(unit) + 1))[:ln]
+    for pos, ch in spec.get("edits", ()):
+        if 0 <= pos < ln:
+            s = s[:pos] + ch + s[pos + 1:]
+    return s
+
+
+def _pick_len(rnd: random.Random) -> int:
+    r = rnd.random()
+    if r < 0.04:
+        return rnd.choice([65535, 65536, 65537])
+    if r < 0.14:
+        return rnd.choice([8191, 8192, 8193, 16383, 16384, 16385, 32767, 32768, 32769])
+    if r < 0.50:
+        return rnd.choice([b for b in LEN_BOUNDARIES if 255 <= b <= 4097])
+    if r < 0.75:
+        return rnd.choice([b for b in LEN_BOUNDARIES if b < 255])
+    return rnd.randint(0, 6000)
+
+
+def gen_msgs(rnd: random.Random):
+    """Three message specs for one case: a base message of a boundary length and two relatives of it - equal up to a
+    late position (the last character, a position next to a length boundary, one character more or less), equal from an
+    early position on (common suffix), or unrelated."""
+    unit = rnd.choice(["ascii", "ascii", "unicode", "multiline"])
+    ln = _pick_len(rnd)
+    base = {"unit": unit, "len": ln, "edits": []}
+    ch = EDIT_CHARS[unit]
+
+    def relative():
+        k = rnd.choice(["late", "late", "boundary", "longer", "shorter", "early", "unrelated", "other_unit"])
+        if k == "late" and ln >= 1:
+            return {"unit": unit, "len": ln, "edits": [[ln - 1 - rnd.choice([0, 0, 1, 2, 7]), ch]]}
+        if k == "boundary" and ln >= 2:
+            cands = [b + d for b in LEN_BOUNDARIES for d in (-1, 0) if 0 <= b + d < ln]
+            return {"unit": unit, "len": ln, "edits": [[rnd.choice(cands[-12:]), ch]]}
+        if k == "longer":
+            return {"unit": unit, "len": ln + rnd.choice([1, 1, 2, 24]), "edits": []}
+        if k == "shorter" and ln >= 1:
+            return {"unit": unit, "len": ln - 1, "edits": []}
+        if k == "early" and ln >= 1:
+            return {"unit": unit, "len": ln, "edits": [[rnd.choice([0, 0, 1, 3]), ch]]}
+        if k == "other_unit":
+            return {"unit": rnd.choice([u for u in UNITS if u != unit]), "len": ln, "edits": []}
+        return rnd.choice(MSGS)
+    out = [base]
+    for _ in range(2):
+        for _try in range(8):
+            m = relative()
+            if all(build_msg(m) != build_msg(o) for o in out):
+                out.append(m)
+                break
+        else:
+            out.append(rnd.choice([x for x in MSGS if all(x != build_msg(o) for o in out)]))
+    rnd.shuffle(out)
+    return out
+
+
+def common_prefix_len(a: str, b: str) -> int:
+    lo, hi = 0, min(len(a), len(b))
+    while lo < hi:                     # largest n with a[:n] == b[:n]
+        mid = (lo + hi + 1) // 2
+        if a[:mid] == b[:mid]:
+            lo = mid
+        else:
+            hi = mid - 1
+    return lo
+
+
+def abbr(m: str):
+    if len(m) <= 80:
+        return m
+    import hashlib
+    return f"<{len(m)} chars sha1={hashlib.sha1(m.encode('utf-8', 'surrogatepass')).hexdigest()[:10]} {m[:24]!r}...{m[-16:]!r}>"
+
+
+def abbr_entries(entries):
+    return [[abbr(e[0])] + list(e[1:]) for e in entries]
 
 
 def plan(tier, seed):
@@ -51,6 +164,9 @@ def plan(tier, seed):
 
 
 def gen_case(rnd: random.Random):
+    wide = rnd.random() < 0.5
+    specs = gen_msgs(rnd) if wide else None
+    MSGS = (0, 1, 2) if wide else globals()["MSGS"]      # wide cases refer to their message specs by index
     n = rnd.randint(1, 24)
     early_p = rnd.choice([0.0, 0.0, 0.08])
     stick = rnd.choice([0.3, 0.6, 0.85])
@@ -110,7 +226,10 @@ def gen_case(rnd: random.Random):
         j = rnd.randrange(len(batches) - 1)
         batches.insert(j + 2, [list(e) for e in batches[j] + batches[j + 1]])
         redeliveries.append(["two_as_one", j + 2])
-    return {"batches": batches, "redeliveries": redeliveries}
+    case = {"batches": batches, "redeliveries": redeliveries}
+    if wide:
+        case["msgs"] = specs
+    return case
 
 
 class RefFold:
@@ -177,6 +296,42 @@ def _snapshot(log):
     return [[e.message, e.severity, e.created_time, e.occurrences] for e in log.entries]
 
 
+LONG_CLASSES = (256, 1024, 4096, 65536)
+
+
+def _msg_counters(res: Result, kind: str, msg: str, last_msg, same_sev: bool, via_handler: bool, cp_cache: dict):
+    """Counters proving that the wide message strata were reached and judged (kind = outcome of the reference)."""
+    ln = len(msg)
+    if kind == "merge":
+        for c in LONG_CLASSES:
+            if ln >= c:
+                res.count(f"long_message_merges_{c}plus")
+        if ln >= 256 and via_handler:
+            res.count("via_handler_long_message_merges")
+        if ln == 0:
+            res.count("empty_message_merges")
+        if not msg.isascii():
+            res.count("non_ascii_message_merges")
+        if "\n" in msg:
+            res.count("multiline_message_merges")
+    elif kind in ("dup", "redelivered") and ln >= 256:
+        res.count("long_message_redelivered_duplicates")
+        if ln >= 1024:
+            res.count("long_message_redelivered_duplicates_1024plus")
+    elif kind == "new" and last_msg is not None and same_sev and last_msg != msg:
+        key = (last_msg, msg) if id(last_msg) <= id(msg) else (msg, last_msg)
+        cp = cp_cache.get(key)
+        if cp is None:
+            cp = cp_cache[key] = common_prefix_len(msg, last_msg)
+        for c in LONG_CLASSES[:3]:
+            if cp >= c:
+                res.count(f"late_difference_kept_distinct_{c}plus")
+        if cp == min(ln, len(last_msg)) and cp >= 1:
+            res.count("proper_prefix_kept_distinct")
+        if cp < 8 and min(ln, len(last_msg)) >= 256 and msg[8:] == last_msg[8:]:
+            res.count("early_difference_long_common_suffix_kept_distinct")
+
+
 async def check_case(case, res: Result, rig=None, eid=None):
     import openpectus.aggregator.models as Mdl
     import openpectus.protocol.models as PM
@@ -193,13 +348,22 @@ async def check_case(case, res: Result, rig=None, eid=None):
     n_batches_judged = 0
     cross = 0
     viol = None
-    for bi, batch in enumerate(case["batches"]):
+    # wide cases carry message specs and refer to them by index; messages are always compared in full
+    table = [build_msg(sp) for sp in case.get("msgs") or ()]
+    if table:
+        res.count("wide_message_cases")
+    cp_cache: dict = {}
+    for bi, raw_batch in enumerate(case["batches"]):
+        batch = [(table[m] if isinstance(m, int) else m, t, sev) for m, t, sev in raw_batch]
         first_in_batch = True
         redelivered_in_batch = 0
         for msg, t, sev in batch:
             if judged:
                 had_entries = bool(ref.entries)
+                last = ref.entries[-1] if had_entries else None
+                last_msg, same_sev = (last[0], last[1] == sev) if last is not None else (None, False)
                 kind = ref.feed(msg, t, sev)
+                _msg_counters(res, kind, msg, last_msg, same_sev, rig is not None, cp_cache)
                 if kind == "earlier":
                     judged = False
                     res.count("earlier_time_entries_excluded")
@@ -232,6 +396,8 @@ async def check_case(case, res: Result, rig=None, eid=None):
             continue   # the batch contained the excluded entry: nothing after it is judged
         impl = _snapshot(log)
         res.count("batches_compared")
+        if table:
+            res.count("wide_message_batches_compared")
         n_batches_judged += 1
         if redelivered_in_batch:
             res.count("redelivered_batches_with_earlier_times_judged")
@@ -249,18 +415,22 @@ async def check_case(case, res: Result, rig=None, eid=None):
                 # only the last aggregate is over-counted, by at most the number of redelivered earlier-time entries
                 mech = "C35.redelivered_earlier_time_entry_counted_again"
             viol = (mech, f"conservation broken after batch {bi}: sum(occurrences)={total} + duplicates (identical time "
-                          f"or time of an already merged entry)={ref.dups} != entries fed={ref.n_in}; aggregated={impl} "
-                          f"expected={ref.entries}")
+                          f"or time of an already merged entry)={ref.dups} != entries fed={ref.n_in}; "
+                          f"aggregated={abbr_entries(impl)} expected={abbr_entries(ref.entries)}")
             break
         if impl != ref.entries:
-            viol = (classify(impl, ref.entries), f"after batch {bi}: aggregated={impl} expected={ref.entries}")
+            viol = (classify(impl, ref.entries),
+                    f"after batch {bi}: aggregated={abbr_entries(impl)} expected={abbr_entries(ref.entries)}")
             break
     res.count("cross_batch_merges", cross)
     if not judged:
         res.count("cases_cut_at_earlier_time_entry")
     interesting = ref.merges >= 1 and len(ref.entries) >= 2 and n_batches_judged >= 1
-    res.case({"b": case["batches"]} if interesting else None,
-             sample={"batches": case["batches"], "aggregated": _snapshot(log), "judged_prefix_entries": ref.n_in})
+    key = {"b": case["batches"], "m": case.get("msgs")} if table else {"b": case["batches"]}
+    sample = {"batches": case["batches"], "aggregated": abbr_entries(_snapshot(log)), "judged_prefix_entries": ref.n_in}
+    if table:
+        sample["msgs"] = case["msgs"]
+    res.case(key if interesting else None, sample=sample)
     if viol:
         res.violation(viol[0], viol[1], case)
 
